@@ -6,7 +6,7 @@
 EXTENDS SerfEvents
 VARIABLE sel
 GenInit == Init /\ sel = 0
-Pick == sel = 0 /\ sel' \in 1..14 /\ UNCHANGED vars
+Pick == sel = 0 /\ sel' \in 1..15 /\ UNCHANGED vars
 
 KSeqs == SeqsUpTo(Contents, PPK) \ {<<>>}
 RandSlot == [lt |-> RandomElement(MsgT), ks |-> RandomElement(KSeqs)]
@@ -19,6 +19,15 @@ OwnPP == [elt |-> N.ec, qlt |-> N.qc,
                       Sq(S) == IF S = {} THEN <<>> ELSE LET i == CHOOSE x \in S : \A y \in S : x <= y
                                                          IN <<[lt |-> N.ebuf[i].lt, ks |-> N.ebuf[i].xs]>> \o Sq(S \ {i})
                   IN Sq(idx)]
+\* what a real peer can hold: event clock elt >= 1, slots strictly below it (not MAX) in ascending order, no repeats
+KSeqsD == { ks \in KSeqs : \A a, c \in DOMAIN ks : a # c => ks[a] # ks[c] }
+RECURSIVE Asc(_)
+Asc(S) == IF S = {} THEN <<>> ELSE LET t == CHOOSE x \in S : \A y \in S : ~Lt(y, x)
+                                   IN <<[lt |-> t, ks |-> RandomElement(KSeqsD)]>> \o Asc(S \ {t})
+RandJoinPP == LET e == RandomElement(MsgT \ {0})
+                  below == { t \in MsgT : Lt(t, e) /\ t # MAX }
+                  pick == RandomElement({ S \in SUBSET below : Cardinality(S) <= PPSlots })
+              IN [elt |-> e, qlt |-> RandomElement(MsgT \ {0}), evs |-> Asc(pick)]
 Flags == {<<0, 0>>, <<1, 0>>, <<1, 1>>, <<0, 1>>}
 Near(c) == { t \in MsgT : Pos(t) + N.b + 1 >= Pos(c) /\ Pos(t) <= Pos(c) + N.b + 1 }   \* around the window edge
 
@@ -34,6 +43,7 @@ Do ==
        [] sel = 10 -> \E f \in Flags : Merge(OwnPP, f[1], f[2])
        [] sel = 11 -> \E k \in Contents : Uev(k)
        [] sel = 12 -> Lq
+       [] sel = 15 -> \E pp \in {RandJoinPP}, ign \in {0, 1} : Join(pp, ign)
        [] sel \in {13, 14} -> \E crash \in {0, 1}, re \in -1..MAX, rq \in -1..MAX : Restart(crash, re, rq)
 Skip == sel # 0 /\ sel' = 0 /\ UNCHANGED vars
 GenNext == Pick \/ Do \/ Skip
